@@ -7,7 +7,8 @@ import fncommon
 import vlib
 
 LEVEL = "exploration"
-REL_G = "2e-10"
+REL_G = "2e-10"      # Hermite, Laguerre (unbounded domains)
+REL_B = "1e-12"      # Legendre, Chebyshev of both kinds (bounded domain)
 REL_DE = "1e-13"
 
 
@@ -17,7 +18,7 @@ def run(ctx):
     rows = vlib.read_ndjson(obs)
     for k, r in enumerate(rows):
         r["id"] = k + 1
-    viols = fncommon.validate(ctx, rows, "Val_C10", "tab", nshards=12, env={"VH_RELG": REL_G, "VH_RELDE": REL_DE}, timeout=1500)
+    viols = fncommon.validate(ctx, rows, "Val_C10", "tab", nshards=12, env={"VH_RELG": REL_G, "VH_RELB": REL_B, "VH_RELDE": REL_DE}, timeout=1500)
     npairs = 0
     for r in rows:
         npairs += len(r["pairs"])
@@ -33,7 +34,7 @@ def run(ctx):
     ctx.notes["node_weight_pairs"] = npairs
     ctx.rule = ("every row of the five Gaussian tables and every level of the tanh-sinh table shipped in the working tree's tables.rs; "
                 "non-trivial = rows with n >= 2 (and every tanh-sinh level); distinct by (table,row)")
-    ctx.assumptions += ["moments compared to relative %s, tanh-sinh pairs to relative %s" % (REL_G, REL_DE),
+    ctx.assumptions += ["moments compared to relative %s (Legendre, Chebyshev) / %s (Hermite, Laguerre), tanh-sinh pairs to relative %s" % (REL_B, REL_G, REL_DE),
                         "closed-form moments written in QuadTables.tla"]
 
 
